@@ -42,6 +42,10 @@ def gen_assembly(rng, tpf_ok):
     header = ["hdr line %d" % x if rng.random() < 0.7 else "DESCRIPTION: x\ty " + gen_name(rng) for x in range(rng.choice([0, 0, 1, 2]))]
     # header text may end in blanks (they are part of the text: only the line terminator is not)
     header = [h + rng.choice(["", "", " ", "  ", "\t", " \u00a0"]) for h in header]
+    if rng.random() < 0.15:
+        # the same text twice (a separator above and below, a repeated note): both lines are header lines
+        rep = rng.choice(["-----", "curated by hand", header[0] if header else "x"])
+        header = [rep] + header + [rep]
     return {"header": header, "scaffolds": scs}
 
 
